@@ -261,6 +261,12 @@ def job_cmp(Ka, Kb, ua, ub, op):
             else:
                 at = AU.abs_cmp(op, ("q", Ka, ua, x), ("q", Kb, ub, y))
             O.prove("helper:cmp-matches-abstract-contract", L.Iff(t, at), props=HELPER_PROPS)
+            fa_, fb_ = f_spec(Ka, ua), f_spec(Kb, ub)
+            if Ka != Kb and issubclass(CLS[Kb], CLS[Ka]):
+                st_ = AU.abs_cmp_si(swap[op], L.mul(y, fb_), fb_, L.mul(x, fa_), ua == ub)
+            else:
+                st_ = AU.abs_cmp_si(op, L.mul(x, fa_), fa_, L.mul(y, fb_), ua == ub)
+            O.prove("helper:cmp-matches-SI-level-contract", L.Iff(t, st_), props=HELPER_PROPS)
         X, Y = si(Ka, x, ua), si(Kb, y, ub)
         exact = {"eq": L.eq(X, Y), "ne": L.ne(X, Y), "lt": L.lt(X, Y), "le": L.le(X, Y), "gt": L.gt(X, Y),
                  "ge": L.ge(X, Y)}[op] if not c.concrete else \
@@ -413,6 +419,37 @@ def check_abs(O, op, TA, TB, real):
         parts.append(L.Implies(here, m))
         prior.append(L.Not(cond))
     O.prove("helper:op-matches-abstract-contract", L.And(*parts), props=HELPER_PROPS)
+    # the abstract contract is unit independent: evaluated on the operands expressed in SI units it decides the same
+    # outcome and yields the same SI magnitude (this is what SymQ executes)
+    def to_si(T):
+        if T[0] != "q":
+            return T
+        _, K, u, v = T
+        return ("q", K, AU.SI_UNIT[K], L.mul(v, f_spec(K, u)))
+    SA, SB = to_si(TA), to_si(TB)
+    d1 = AU.absop(op, TA, TB)
+    d2 = AU.absop(op, SA, SB)
+    ok = len(d1) == len(d2)
+    parts = []
+    if ok:
+        for (c1, o1), (c2, o2) in zip(d1, d2):
+            parts.append(L.Iff(c1, c2))
+            if isinstance(o1, str) or isinstance(o2, str):
+                ok = ok and (o1 == o2)
+            elif o1[0] == "num" or o2[0] == "num":
+                ok = ok and o1[0] == o2[0]
+                if ok:
+                    parts.append(L.Implies(c1, L.eq(o1[1], o2[1])) if op != "div" else
+                                 L.Implies(L.And(c1, L.Not(L.eq(TB[3] if TB[0] == "q" else TB[1], 0))), L.eq(o1[1], o2[1])))
+            else:
+                ok = ok and o1[1] == o2[1]
+                if ok:
+                    ua_ = TA[2] if TA[0] == "q" else None
+                    ub_ = TB[2] if TB[0] == "q" else None
+                    ok = ok and AU.result_unit(op, TA, TB, ua_, ub_, o1[1]) == o1[2]
+                    nz = L.Not(L.eq(TB[3] if TB[0] == "q" else TB[1], 0)) if op == "div" else True
+                    parts.append(L.Implies(L.And(c1, nz), L.eq(L.mul(o1[3], f_spec(o1[1], o1[2])), o2[3])))
+    O.prove("helper:abstract-contract-is-unit-independent", L.And(ok, *parts), props=HELPER_PROPS)
 
 
 HELPER_PROPS = ("helper",)
